@@ -173,10 +173,11 @@ class PreprocessorHexagon:
         """
 
         match = re.match(
-            r"\{.*__COMPOUND_PART1__(\{.+})__COMPOUND_PART1__(.*)}$", insn_beh
+            r"\{(.*)__COMPOUND_PART1__(\{.+})__COMPOUND_PART1__(.*)}$", insn_beh
         )
-        beh_p1 = match.group(1)
-        beh_p2 = "{" + match.group(2) + "}"  # brackets were excluded in regex.
+        # Statements in front of the first marker run before part 1: keep them at its front.
+        beh_p1 = "{" + match.group(1) + match.group(2)[1:]
+        beh_p2 = "{" + match.group(3) + "}"  # brackets were excluded in regex.
         return beh_p1, beh_p2
 
     @staticmethod
